@@ -298,6 +298,18 @@ def generate(problems):
     body += "def yamlSortKeys : Bool := %s\n" % b(yk.get("sort_keys", True))
     body += "def yamlDefaultStyle : String := %s\n" % lean_str(yk.get("default_style") or "")
     body += "def yamlKwargs : List String := %s\n" % lean_str_list(sorted("%s=%r" % kv for kv in yk.items()))
+    # emitter settings of the live Dumper class instantiated with the captured kwargs
+    import io
+
+    try:
+        inst = cap["Dumper"](io.StringIO(), **yk)
+        body += "/-- Emitter.best_width: plain/quoted scalars are folded at spaces beyond this column -/\ndef yamlBestWidth : Nat := %d\n" % int(inst.best_width)
+        body += "def yamlBestIndent : Nat := %d\n" % int(inst.best_indent)
+        body += "def yamlCanonical : Bool := %s\n" % b(inst.canonical)
+        body += "def yamlEmitterAllowUnicode : Bool := %s\n" % b(inst.allow_unicode)
+        body += "/-- SafeRepresenter.default_style (non-empty forces a scalar style) -/\ndef yamlRepresenterDefaultStyle : String := %s\n" % lean_str(inst.default_style or "")
+    except Exception as ex:  # noqa: BLE001
+        problems.append("DumpCfg: cannot instantiate the Dumper with the captured kwargs: %r" % (ex,))
     body += "/-- json.dumps(ensure_ascii=…) as actually passed by the json dumpers (true if any of them escapes) -/\n"
     body += "def jsonEnsureAscii : Bool := %s\n" % b(any(ea.values()) if ea else True)
     body += "def jsonKwargs : List String := %s\n" % lean_str_list(
